@@ -253,6 +253,32 @@ def check_negative_duration(acc, pendulum, loc, kw):
                 acc.mismatch("format_diff", f"{loc}/negative-duration/phrase", case, r, sorted(ok))
 
 
+FLOAT_BUILT = (({"milliseconds": 90000.5}, {"seconds": 90, "microseconds": 500}), ({"milliseconds": -7260000.0}, {"hours": -2, "minutes": -1}),
+               ({"seconds": 90.0005}, {"seconds": 90, "microseconds": 500}), ({"minutes": 1.5}, {"seconds": 90}),
+               ({"hours": 2.0, "milliseconds": 1500.0}, {"hours": 2, "seconds": 1, "microseconds": 500000}),
+               ({"days": 1.5}, {"days": 1, "hours": 12}), ({"weeks": 0.5, "milliseconds": 250.0}, {"days": 3, "hours": 12, "microseconds": 250000}),
+               ({"years": 1, "milliseconds": 3600000.0}, {"years": 1, "hours": 1}))
+
+
+def check_float_built(acc, pendulum, loc):
+    """A Duration built from float arguments words exactly like the equal Duration built from ints (whose phrases are
+    judged against the locale data elsewhere): counts are whole numbers, never '1.0 minute'."""
+    for fkw, ikw in FLOAT_BUILT:
+        fd, idur = pendulum.Duration(**fkw), pendulum.Duration(**ikw)
+        if obs.td_us(fd) != obs.td_us(idur):
+            acc.c["seed_not_canonical"] += 1
+            continue
+        case = {"kind": "fb", "loc": loc, "kw": fkw}
+        calls = [("in_words", lambda d: d.in_words(locale=loc)), ("in_words-sep", lambda d: d.in_words(locale=loc, separator=", "))]
+        calls += [(f"format_diff/{int(n)}{int(a)}", (lambda n, a: lambda d: pendulum.format_diff(d, n, a, loc))(n, a))
+                  for n in (True, False) for a in (False, True)]
+        for name, fn in calls:
+            r = basic(acc, "float-built", f"{loc}/{name}", case, lambda: fn(fd))
+            w = basic(acc, "float-built", f"{loc}/{name}/int-twin", case, lambda: fn(idur))
+            if r is not None and w is not None and r != w:
+                acc.mismatch("float-built", f"{loc}/{name.split('/')[0]}/phrase", case, r, w)
+
+
 def check_date_time(acc, pendulum, loc):
     """Date.diff_for_humans and Time.diff_for_humans (explicit other)."""
     d = data(loc)
@@ -695,6 +721,7 @@ def run_shard(shard):
             for kw in ({"days": -2}, {"hours": -5}, {"weeks": -3, "days": -1}, {"years": -1}, {"months": -2, "days": -1},
                        {"seconds": -30}, {"minutes": -1, "seconds": -5}, {"days": 2}, {"years": 1, "days": -1}):
                 check_negative_duration(acc, pendulum, loc, kw)
+            check_float_built(acc, pendulum, loc)
             check_date_time(acc, pendulum, loc)
             check_direction_data(acc, loc)
             check_tokens(acc, pendulum, loc)
@@ -767,6 +794,8 @@ def replay_case(case, acc):
         check_direction_data(acc, case["loc"])
     elif k == "mer":
         check_meridiem_hours(acc, pendulum, case["loc"])
+    elif k == "fb":
+        check_float_built(acc, pendulum, case["loc"])
     elif k == "tok":
         check_tokens(acc, pendulum, case["loc"])
     elif k == "hist":
